@@ -154,9 +154,10 @@ func refParse(raw []byte) (items []refItem, ok bool) {
 	return items, true
 }
 
-// Arbitrary bytes as parser input: never panics, and either errors or yields exactly the
-// items a reference parser finds (so every value is a sub-slice of the input).
-func Harness_C16_q_parse_arbitrary() {
+// Arbitrary bytes as parser input, through the exported API only: never panics; a
+// well-formed input parses; and for every query tag the bytes returned are the
+// concatenation of the reference parser's items with that tag (nothing invented).
+func Harness_C16_q_parse_arbitrary_api() {
 	max := 8
 	if verif.Thorough() {
 		max = 12
@@ -174,48 +175,27 @@ func Harness_C16_q_parse_arbitrary() {
 		return
 	}
 	items, ok := refParse(raw)
-	// a well-formed input must parse (it may be the serialisation of a container)
 	verif.Assert(!ok || err == nil, "well-formed-input-parses")
-	// accepting an input that ends inside an item is not what this parser does today, but the
-	// property only demands "succeeds or errors, and yields nothing that was not in the input"
-	verif.Assert(ok || err != nil, "inv:truncated-input-is-an-error")
-	if err != nil {
+	if err != nil || !ok {
 		verif.Reach("end")
 		return
 	}
-	got := cont.(*tlv8Container).Items
-	if ok {
-		verif.Assert(len(got) == len(items), "item-count")
-		if len(got) != len(items) {
-			return
-		}
-		for i := range got {
-			verif.Assert(got[i].tag == items[i].tag, "item-tag")
-			verif.Assert(int(got[i].length) == len(items[i].val), "item-length")
-			verif.Assert(verif.Eq(got[i].value, items[i].val), "item-value-is-input-slice")
-		}
-	} else {
-		// lenient acceptance of a truncated input: every item still is a piece of the input,
-		// in order
-		off := 0
-		for i := range got {
-			fits := off+2+len(got[i].value) <= len(raw)
-			verif.Assert(fits, "item-value-is-input-slice")
-			if !fits {
-				return
-			}
-			verif.Assert(got[i].tag == raw[off], "item-tag")
-			verif.Assert(verif.Eq(got[i].value, raw[off+2:off+2+len(got[i].value)]), "item-value-is-input-slice")
-			off += 2 + len(got[i].value)
+	q := verif.U8("qtag")
+	want := []byte{}
+	for _, it := range items {
+		if it.tag == q {
+			want = append(want, it.val...)
 		}
 	}
-	// getters on arbitrary parsed input do not panic either
-	q := verif.U8("qtag")
+	var got []byte
 	p2 := verif.Panics(func() {
-		_ = cont.GetBytes(q)
+		got = cont.GetBytes(q)
 		_ = cont.GetByte(q)
 		_ = cont.GetString(q)
 	})
 	verif.Assert(!p2, "nopanic-getters")
+	if !p2 {
+		verif.Assert(verif.Eq(got, want), "parsed-values-are-the-input-items")
+	}
 	verif.Reach("end")
 }
